@@ -39,6 +39,15 @@ def check_fp_fn_mirror(ctx: Ctx):
     ctx.decide("R11.3", None, None, "mirror:rq", "rq is unchanged when prediction and reference are exchanged", vals["rq"].subst(swap).equals(vals["rq"]), {"rq": repr(vals["rq"])})
 
 
+def _run_rule(ctx, name, fn):
+    """a sub-rule that cannot be evaluated is recorded as undecided; the remaining rules still run"""
+    try:
+        return fn(ctx)
+    except (Undecided, AnchorMissing) as e:
+        ctx.undecided(name, None, None, f"{name}:analysis", f"{type(e).__name__}: {e}")
+        return 0
+
+
 def check(ctx: Ctx):
     values = c06.check_kernels(ctx)
     c06.check_identities(ctx, values)
@@ -47,14 +56,14 @@ def check(ctx: Ctx):
             fn(ctx)
         except (Undecided, AnchorMissing) as e:
             ctx.undecided(rule, None, None, f"{rule}:{fn.__name__}", f"{type(e).__name__}: {e}")
-    c03.check_no_pruning(ctx)
+    _run_rule(ctx, "check_no_pruning", c03.check_no_pruning)
     c03._guarded(ctx, "R03.7", c03.check_candidate_call)
     c03._guarded(ctx, "R03.1", c03.check_codec)
     c03._guarded(ctx, "R03.2", c03.check_candidates)
     c03._guarded(ctx, "R03.4", c03.check_naive)
-    c02.check_single_instance(ctx)
-    c04.check_chained_replacement(ctx)
-    c04.check_relabel(ctx)
+    _run_rule(ctx, "check_single_instance", c02.check_single_instance)
+    _run_rule(ctx, "check_chained_replacement", c04.check_chained_replacement)
+    _run_rule(ctx, "check_relabel", c04.check_relabel)
     from . import c09
 
     c03._guarded(ctx, "R09.1", c09.check_codec_width)
